@@ -283,4 +283,462 @@ theorem peek_spec (line : List UInt8) (o : Opts) (last : Nat) (hv : WF line) :
                 exact absurd hn' hnd
               · exact hnp b hbb (Bd_nest hb hbb hlt' hdec) hndb
 
+/-! ### one iteration of `loop` -/
+
+def posCutOf (pd : List Nat) (last pos : Nat) : Nat :=
+  match pd.find? (· > last) with
+  | some p => p
+  | none => pos
+
+def cutState (line : List UInt8) (o : Opts) (s : St) (pd : List Nat) (pfd posCut pce : Nat) : St :=
+  { pos := pce, last := pce, pd := pd, pfd := pfd,
+    out := (if o.keep then (slice line s.last pce, [])
+            else (slice line s.last posCut, slice line posCut pce)) :: s.out }
+
+def cutStep (line : List UInt8) (o : Opts) (s : St) (pd : List Nat) (pfd pos : Nat) : Option St :=
+  match peek line o s.last (line.length + 1) (posCutOf pd s.last pos) with
+  | none => none
+  | some pce => some (cutState line o s pd pfd (posCutOf pd s.last pos) pce)
+
+/-- one iteration of `loop` after decoding and updating `pd`/`pfd` -/
+def step2 (line : List UInt8) (o : Opts) (s : St) (cl : Nat) (pd : List Nat) (pfd : Nat) : Option St :=
+  let pos := s.pos + cl
+  let overshoot := pos - s.last > o.width && pos - cl > s.last
+  let pos := if overshoot then pos - cl else pos
+  if !overshoot && pos - s.last < o.width then
+    some { s with pos := pos, pd := pd, pfd := pfd }
+  else cutStep line o s pd pfd pos
+
+def step (line : List UInt8) (o : Opts) (s : St) : Option St :=
+  match decode (line.drop s.pos) with
+  | none => none
+  | some (ch, cl) =>
+    match findDelimiter o.delims ch with
+    | some i => step2 line o s cl (s.pd.set i s.pfd) s.pfd
+    | none => step2 line o s cl s.pd (s.pos + cl)
+
+theorem bind_ite {α β : Type} (c : Prop) [Decidable c] (a b : Option α) (g : α → Option β) :
+    (if c then a else b).bind g = if c then a.bind g else b.bind g := by
+  split <;> rfl
+
+theorem loop_succ (line : List UInt8) (o : Opts) (fuel : Nat) (s : St) :
+    loop line o (fuel + 1) s =
+      if s.pos ≥ line.length then some s else (step line o s).bind (loop line o fuel) := by
+  rw [loop]
+  split
+  · rfl
+  · unfold step
+    cases hdec : decode (line.drop s.pos) with
+    | none => rfl
+    | some r =>
+      obtain ⟨ch, cl⟩ := r
+      simp only
+      cases hfd : findDelimiter o.delims ch with
+      | none =>
+        simp only [step2, cutStep, cutState, posCutOf]
+        rw [bind_ite]
+        congr 1
+        generalize peek line o s.last _ _ = P
+        cases P <;> rfl
+      | some i =>
+        simp only [step2, cutStep, cutState, posCutOf]
+        rw [bind_ite]
+        congr 1
+        generalize peek line o s.last _ _ = P
+        cases P <;> rfl
+
+/-! ### the loop invariant -/
+
+def ItemOK (o : Opts) (it : List UInt8 × List UInt8) : Prop :=
+  (it.1.length ≤ o.width ∨ ∃ c, decodeAll it.1 = some [c]) ∧ WF it.1 ∧
+  (o.keep = true → it.2 = []) ∧ DelimRun o it.2
+
+structure Inv (line : List UInt8) (o : Opts) (s : St) : Prop where
+  le1 : s.last ≤ s.pos
+  bl : Bd line s.last
+  bp : Bd line s.pos
+  bpd : ∀ p ∈ s.pd, Bd line p
+  bpfd : Bd line s.pfd
+  w3 : s.pos - s.last < o.width
+  w4 : ∀ p ∈ s.pd, p - s.last ≤ o.width
+  w5 : s.pfd - s.last ≤ o.width ∨ NonDelimAt line o s.pos
+  cat : (s.out.reverse).flatMap (fun x => x.1 ++ x.2) = line.take s.last
+  items : ∀ it ∈ s.out, ItemOK o it ∧ it.1 ≠ []
+
+def mu (line : List UInt8) (s : St) : Nat :=
+  (line.length - s.last) * (line.length + 2) + (line.length - s.pos) + 1
+
+theorem posCutOf_cases (pd : List Nat) (last pos : Nat) :
+    (posCutOf pd last pos = pos) ∨ (posCutOf pd last pos ∈ pd ∧ last < posCutOf pd last pos) := by
+  unfold posCutOf
+  cases hf : pd.find? (· > last) with
+  | none => exact Or.inl rfl
+  | some p =>
+    right
+    exact ⟨List.mem_of_find?_eq_some hf, by simpa using List.find?_some hf⟩
+
+/-- the "single code point wider than the width" situation -/
+def Single (o : Opts) (s : St) (cl pos : Nat) : Prop :=
+  s.pos = s.last ∧ pos = s.last + cl ∧ o.width < cl
+
+theorem cutStep_spec (line : List UInt8) (o : Opts) (hv : WF line) (hw : 1 ≤ o.width) (s : St)
+    (hI : Inv line o s) (ch cl : Nat) (hdec : decode (line.drop s.pos) = some (ch, cl))
+    (hch : Scalar ch) (hsl : slice line s.pos (s.pos + cl) = encodeCP ch)
+    (pd : List Nat) (pfd pos : Nat)
+    (hpd : ∀ p ∈ pd, Bd line p ∧ p - s.last ≤ o.width) (hpfd : Bd line pfd)
+    (hpos : s.last < pos) (hbpos : Bd line pos)
+    (hW : pos - s.last ≤ o.width ∨ Single o s cl pos)
+    (h5 : pfd - s.last ≤ o.width ∨ (pfd = pos ∧ Single o s cl pos) ∨
+      (NonDelimAt line o pos ∧ pos - s.last < o.width ∧ ∀ p ∈ pd, s.last < p → p ≤ pos)) :
+    ∃ s', cutStep line o s pd pfd pos = some s' ∧ Inv line o s' ∧ mu line s' < mu line s := by
+  -- facts about the cut position
+  have hpc : s.last < posCutOf pd s.last pos ∧ Bd line (posCutOf pd s.last pos) ∧
+      ((posCutOf pd s.last pos - s.last ≤ o.width ∧ ¬ Single o s cl pos) ∨
+        (Single o s cl pos ∧ posCutOf pd s.last pos = pos)) ∧
+      ((∀ p ∈ pd, s.last < p → p ≤ pos) → posCutOf pd s.last pos ≤ pos) := by
+    rcases posCutOf_cases pd s.last pos with h | ⟨hm, hl⟩
+    · rw [h]
+      refine ⟨hpos, hbpos, ?_, fun _ => Nat.le_refl _⟩
+      by_cases hS : Single o s cl pos
+      · exact Or.inr ⟨hS, rfl⟩
+      · rcases hW with h | h
+        · exact Or.inl ⟨h, hS⟩
+        · exact absurd h hS
+    · refine ⟨hl, (hpd _ hm).1, Or.inl ⟨(hpd _ hm).2, ?_⟩, fun h => h _ hm hl⟩
+      rintro ⟨h1, h2, h3⟩
+      rw [h1] at hdec
+      have := Bd_nest hI.bl (hpd _ hm).1 hl hdec
+      have := (hpd _ hm).2
+      omega
+  unfold cutStep
+  generalize posCutOf pd s.last pos = pc at hpc ⊢
+  obtain ⟨hpc1, hpc2, hpc3, hpc4⟩ := hpc
+  obtain ⟨pce, hpk, hle, hbe, hrun, hkeep, hnp, hsr⟩ :=
+    peek_spec line o s.last hv (line.length + 1) pc hpc2 (by omega)
+  have hbl := hI.bl
+  have hpcel : pce ≤ line.length := hbe.1
+  refine ⟨cutState line o s pd pfd pc pce, ?_, ?_, ?_⟩
+  · rw [hpk]
+  · -- the emitted item
+    have hpiece1 : slice line s.last pc ≠ [] := by
+      intro h0
+      have := slice_length line s.last pc hpc2.1
+      rw [h0] at this; simp at this; omega
+    have hwpc : (slice line s.last pc).length ≤ o.width ∨
+        ∃ c, decodeAll (slice line s.last pc) = some [c] := by
+      rcases hpc3 with ⟨h, _⟩ | ⟨⟨h1, h2, h3⟩, h4⟩
+      · left; rw [slice_length line s.last pc hpc2.1]; exact h
+      · right
+        refine ⟨ch, ?_⟩
+        rw [h4, h2, ← h1, hsl]
+        exact decodeAll_encodeCP hch
+    have hitem : ItemOK o (if o.keep then (slice line s.last pce, [])
+        else (slice line s.last pc, slice line pc pce)) ∧
+        (if o.keep then (slice line s.last pce, [])
+        else (slice line s.last pc, slice line pc pce)).1 ≠ [] := by
+      cases hk : o.keep with
+      | false =>
+        simp only [Bool.false_eq_true, if_false]
+        have hkf : o.keep = true → slice line pc pce = [] := by
+          intro h; rw [hk] at h; cases h
+        exact ⟨⟨hwpc, Bd_slice hbl hpc2 (by omega), hkf, hrun⟩, hpiece1⟩
+      | true =>
+        simp only [if_true]
+        have hk' := hkeep hk
+        refine ⟨⟨?_, Bd_slice hbl hbe (by omega), fun _ => rfl, DelimRun_nil o⟩, ?_⟩
+        · rcases hpc3 with ⟨h, _⟩ | ⟨⟨h1, h2, h3⟩, h4⟩
+          · left
+            rw [slice_length line s.last pce hpcel]
+            rw [Nat.max_eq_left h] at hk'; exact hk'
+          · have : pce = pc := by
+              have : o.width ≤ pc - s.last := by omega
+              rw [Nat.max_eq_right this] at hk'; omega
+            rw [this]; exact hwpc
+        · intro h0
+          have := slice_length line s.last pce hpcel
+          rw [h0] at this; simp at this; omega
+    have hcat : line.take s.last ++ (if o.keep then (slice line s.last pce, [])
+        else (slice line s.last pc, slice line pc pce)).1 ++ (if o.keep then (slice line s.last pce, [])
+        else (slice line s.last pc, slice line pc pce)).2 = line.take pce := by
+      cases hk : o.keep with
+      | false =>
+        simp only [Bool.false_eq_true, if_false]
+        rw [List.append_assoc, ← slice_append line (Nat.le_of_lt hpc1) hle hpcel,
+          take_append_slice line (by omega)]
+      | true =>
+        simp only [if_true, List.append_nil]
+        rw [take_append_slice line (by omega)]
+    constructor
+    · exact Nat.le_refl _
+    · exact hbe
+    · exact hbe
+    · intro p hp; exact (hpd p hp).1
+    · exact hpfd
+    · simp only [cutState]; omega
+    · intro p hp
+      have := (hpd p hp).2
+      simp only [cutState]; omega
+    · simp only [cutState]
+      rcases h5 with h | ⟨h1, h2⟩ | ⟨hnd, hlt, hall⟩
+      · left; omega
+      · left
+        have : pc = pos := by
+          rcases hpc3 with ⟨_, h⟩ | ⟨_, h⟩
+          · exact absurd h2 h
+          · exact h
+        omega
+      · have hpcpos := hpc4 hall
+        have hpcepos := hnp pos hbpos hpcpos hnd
+        rcases Nat.eq_or_lt_of_le hpcepos with heq | hlt2
+        · right; rw [heq]; exact hnd
+        · rcases hsr with h | ⟨_, h⟩ | ⟨c, n, hd, h | h⟩
+          · have := hbpos.1
+            obtain ⟨c', n', hd', _⟩ := hnd
+            have : pos < line.length := by
+              apply Classical.byContradiction
+              intro hge
+              have : line.drop pos = [] := List.drop_eq_nil_of_le (by omega)
+              rw [this] at hd'
+              simp [decode] at hd'
+            omega
+          · omega
+          · have := Bd_nest hbe hbpos hlt2 hd
+            omega
+          · right; exact ⟨c, n, hd, h⟩
+    · simp only [cutState, List.reverse_cons, List.flatMap_append, List.flatMap_cons,
+        List.flatMap_nil, List.append_nil]
+      rw [hI.cat, ← List.append_assoc]
+      exact hcat
+    · intro it hit
+      simp only [cutState] at hit
+      rcases List.mem_cons.mp hit with rfl | hit
+      · exact hitem
+      · exact hI.items it hit
+  · have hm : (line.length - pce + 1) * (line.length + 2) ≤
+        (line.length - s.last) * (line.length + 2) :=
+      Nat.mul_le_mul_right _ (by omega)
+    rw [Nat.add_mul, Nat.one_mul] at hm
+    simp only [mu, cutState]
+    omega
+
+theorem step2_spec (line : List UInt8) (o : Opts) (hv : WF line) (hw : 1 ≤ o.width) (s : St)
+    (hI : Inv line o s) (hlt : s.pos < line.length) (ch cl : Nat)
+    (hdec : decode (line.drop s.pos) = some (ch, cl)) (pd : List Nat) (pfd : Nat)
+    (hpd : ∀ p ∈ pd, Bd line p ∧ p - s.last ≤ o.width) (hpfd : Bd line pfd)
+    (h5 : pfd - s.last ≤ o.width ∨ (pfd = s.pos + cl ∧ NonDelimAt line o s.pos)) :
+    ∃ s', step2 line o s cl pd pfd = some s' ∧ Inv line o s' ∧ mu line s' < mu line s := by
+  obtain ⟨c, n, hdec', hc, h1, hle, hbn, hsl⟩ := Bd_step hv hI.bp hlt
+  rw [hdec] at hdec'
+  simp only [Option.some.injEq, Prod.mk.injEq] at hdec'
+  obtain ⟨rfl, rfl⟩ := hdec'
+  have hle1 := hI.le1
+  have hw3 := hI.w3
+  unfold step2
+  simp only [Nat.add_sub_cancel]
+  by_cases hov : s.pos + cl - s.last > o.width ∧ s.pos > s.last
+  · have e1 : (decide (s.pos + cl - s.last > o.width) && decide (s.pos > s.last)) = true := by
+      simp [hov]
+    simp only [e1, Bool.not_true, Bool.false_and, Bool.false_eq_true, if_false, if_true]
+    apply cutStep_spec line o hv hw s hI ch cl hdec hc hsl pd pfd s.pos hpd hpfd hov.2 hI.bp
+    · exact Or.inl (by omega)
+    · rcases h5 with h | ⟨h, hnd⟩
+      · exact Or.inl h
+      · refine Or.inr (Or.inr ⟨hnd, hw3, ?_⟩)
+        intro p hp hlp
+        apply Classical.byContradiction
+        intro hgt
+        have := Bd_nest hI.bp (hpd p hp).1 (by omega) hdec
+        have := (hpd p hp).2
+        omega
+  · have e1 : (decide (s.pos + cl - s.last > o.width) && decide (s.pos > s.last)) = false := by
+      simp only [Bool.and_eq_false_iff, decide_eq_false_iff_not]
+      by_cases h1 : s.pos + cl - s.last > o.width
+      · exact Or.inr (fun h2 => hov ⟨h1, h2⟩)
+      · exact Or.inl h1
+    simp only [e1, Bool.not_false, Bool.true_and, Bool.false_eq_true, if_false, decide_eq_true_eq]
+    by_cases hc2 : s.pos + cl - s.last < o.width
+    · rw [if_pos hc2]
+      refine ⟨_, rfl, ?_, ?_⟩
+      · constructor
+        · simp only; omega
+        · exact hI.bl
+        · exact hbn
+        · intro p hp; exact (hpd p hp).1
+        · exact hpfd
+        · exact hc2
+        · intro p hp; exact (hpd p hp).2
+        · left
+          rcases h5 with h | ⟨h, _⟩
+          · exact h
+          · simp only; omega
+        · exact hI.cat
+        · exact hI.items
+      · simp only [mu]; omega
+    · rw [if_neg hc2]
+      apply cutStep_spec line o hv hw s hI ch cl hdec hc hsl pd pfd (s.pos + cl) hpd hpfd
+        (by omega) hbn
+      · by_cases hwd : s.pos + cl - s.last ≤ o.width
+        · exact Or.inl hwd
+        · exact Or.inr ⟨by omega, by omega, by omega⟩
+      · rcases h5 with h | ⟨h, hnd⟩
+        · exact Or.inl h
+        · by_cases hwd : s.pos + cl - s.last ≤ o.width
+          · exact Or.inl (by omega)
+          · exact Or.inr (Or.inl ⟨h, by omega, by omega, by omega⟩)
+
+theorem step_spec (line : List UInt8) (o : Opts) (hv : WF line) (hw : 1 ≤ o.width) (s : St)
+    (hI : Inv line o s) (hlt : s.pos < line.length) :
+    ∃ s', step line o s = some s' ∧ Inv line o s' ∧ mu line s' < mu line s := by
+  obtain ⟨ch, cl, hdec, hc, h1, hle, hbn, hsl⟩ := Bd_step hv hI.bp hlt
+  unfold step
+  rw [hdec]
+  simp only
+  cases hfd : findDelimiter o.delims ch with
+  | none =>
+    simp only
+    apply step2_spec line o hv hw s hI hlt ch cl hdec
+    · intro p hp; exact ⟨hI.bpd p hp, hI.w4 p hp⟩
+    · exact hbn
+    · exact Or.inr ⟨rfl, ch, cl, hdec, by rw [hfd]; rfl⟩
+  | some i =>
+    simp only
+    have hpfdw : s.pfd - s.last ≤ o.width := by
+      rcases hI.w5 with h | ⟨c, n, hd, hn⟩
+      · exact h
+      · rw [hdec] at hd
+        simp only [Option.some.injEq, Prod.mk.injEq] at hd
+        obtain ⟨rfl, rfl⟩ := hd
+        rw [hfd] at hn; cases hn
+    apply step2_spec line o hv hw s hI hlt ch cl hdec
+    · intro p hp
+      rcases List.mem_or_eq_of_mem_set hp with h | rfl
+      · exact ⟨hI.bpd p h, hI.w4 p h⟩
+      · exact ⟨hI.bpfd, hpfdw⟩
+    · exact hI.bpfd
+    · exact Or.inl hpfdw
+
+theorem loop_spec (line : List UInt8) (o : Opts) (hv : WF line) (hw : 1 ≤ o.width) :
+    ∀ (fuel : Nat) (s : St), Inv line o s → mu line s ≤ fuel →
+      ∃ s', loop line o fuel s = some s' ∧ Inv line o s' ∧ line.length ≤ s'.pos := by
+  intro fuel
+  induction fuel with
+  | zero => intro s _ h; simp only [mu] at h; omega
+  | succ fuel ih =>
+    intro s hI hf
+    rw [loop_succ]
+    by_cases hge : s.pos ≥ line.length
+    · rw [if_pos hge]; exact ⟨s, rfl, hI, hge⟩
+    · rw [if_neg hge]
+      obtain ⟨s', hs, hI', hmu⟩ := step_spec line o hv hw s hI (by omega)
+      rw [hs]
+      exact ih s' hI' (by omega)
+
+theorem Inv_init (line : List UInt8) (o : Opts) (hw : 1 ≤ o.width) :
+    Inv line o ⟨0, 0, List.replicate o.delims.length 0, 0, []⟩ := by
+  constructor
+  · exact Nat.le_refl _
+  · exact Bd_zero line
+  · exact Bd_zero line
+  · intro p hp; rw [List.eq_of_mem_replicate hp]; exact Bd_zero line
+  · exact Bd_zero line
+  · simp only; omega
+  · intro p hp; rw [List.eq_of_mem_replicate hp]; simp
+  · left; simp
+  · simp
+  · intro it hit; cases hit
+
+/-- master lemma about `wrapLines` -/
+theorem wrapLines_spec (line : List UInt8) (o : Opts) (hv : WF line) (hw : 1 ≤ o.width) :
+    ∃ ps, wrapLines line o = some ps ∧ ps.flatMap (fun x => x.1 ++ x.2) = line ∧
+      (∀ it ∈ ps, ItemOK o it) ∧ ps ≠ [] ∧ (line ≠ [] → ∀ it ∈ ps, it.1 ≠ []) := by
+  have hmu : mu line ⟨0, 0, List.replicate o.delims.length 0, 0, []⟩ ≤
+      (line.length + 1) * (line.length + 2) := by
+    simp only [mu, Nat.sub_zero]
+    rw [Nat.add_mul, Nat.one_mul]; omega
+  obtain ⟨s, hs, hI, hge⟩ := loop_spec line o hv hw _ _ (Inv_init line o hw) hmu
+  have hpos : s.pos = line.length := Nat.le_antisymm hI.bp.1 hge
+  have hle1 := hI.le1
+  have hw3 := hI.w3
+  unfold wrapLines
+  rw [hs]
+  simp only
+  by_cases hc : s.last < s.pos ∨ s.pos = 0
+  · have e : (decide (s.last < s.pos) || s.pos == 0) = true := by
+      simpa using hc
+    rw [if_pos e]
+    refine ⟨_, rfl, ?_, ?_, ?_, ?_⟩
+    · simp only [List.reverse_cons, List.flatMap_append, List.flatMap_cons,
+        List.flatMap_nil, List.append_nil]
+      rw [hI.cat, take_append_slice line hle1, hpos, List.take_length]
+    · intro it hit
+      rw [List.mem_reverse] at hit
+      rcases List.mem_cons.mp hit with rfl | hit
+      · refine ⟨Or.inl ?_, Bd_slice hI.bl hI.bp hle1, fun _ => rfl, DelimRun_nil o⟩
+        simp only
+        rw [slice_length line _ _ hI.bp.1]; omega
+      · exact (hI.items it hit).1
+    · simp
+    · intro hne it hit
+      rw [List.mem_reverse] at hit
+      have hlen : 0 < line.length := List.length_pos_iff.mpr hne
+      rcases List.mem_cons.mp hit with rfl | hit
+      · simp only
+        intro h0
+        have := slice_length line s.last s.pos hI.bp.1
+        rw [h0] at this; simp at this; omega
+      · exact (hI.items it hit).2
+  · have e : ¬ (decide (s.last < s.pos) || s.pos == 0) = true := by
+      simpa using hc
+    rw [if_neg e]
+    have hlast : s.last = line.length := by omega
+    have hcat := hI.cat
+    rw [hlast, List.take_length] at hcat
+    refine ⟨_, rfl, hcat, ?_, ?_, ?_⟩
+    · intro it hit
+      rw [List.mem_reverse] at hit
+      exact (hI.items it hit).1
+    · intro h0
+      rw [h0] at hcat
+      simp only [List.flatMap_nil] at hcat
+      rw [← hcat] at hpos
+      simp at hpos; omega
+    · intro _ it hit
+      rw [List.mem_reverse] at hit
+      exact (hI.items it hit).2
+
+/-! ### the reader thread -/
+
+theorem pairFun_eq : (fun (x : List UInt8 × List UInt8) => match x with | (p, d) => p ++ d) =
+    fun x => x.1 ++ x.2 := by
+  funext ⟨p, d⟩; rfl
+
+theorem stripCr_eq (r : List UInt8) : stripCr r = r := by
+  unfold stripCr
+  simp [PV.Gen.foldfilterCollectStripCr]
+
+theorem rejoin_id (ps : List (List UInt8 × List UInt8)) :
+    rejoin id ps = ps.flatMap (fun x => x.1 ++ x.2) := by
+  unfold rejoin
+  congr 1
+
+theorem foldfilter_id (o : Opts) (hw : 1 ≤ o.width) : ∀ (lines : List (List UInt8)),
+    (∀ l ∈ lines, WF l) → foldfilter id o lines = some lines
+  | [], _ => rfl
+  | l :: ls, hv => by
+    obtain ⟨ps, hps, hcat, _⟩ := wrapLines_spec l o (hv l (List.mem_cons_self ..)) hw
+    have ih := foldfilter_id o hw ls (fun x hx => hv x (List.mem_cons_of_mem _ hx))
+    rw [foldfilter, hps, ih]
+    simp only [rejoin_id, hcat]
+
+theorem foldfilter_length (child : List UInt8 → List UInt8) (o : Opts) (hw : 1 ≤ o.width) :
+    ∀ (lines : List (List UInt8)), (∀ l ∈ lines, WF l) →
+      ∃ out, foldfilter child o lines = some out ∧ out.length = lines.length
+  | [], _ => ⟨[], rfl, rfl⟩
+  | l :: ls, hv => by
+    obtain ⟨ps, hps, _⟩ := wrapLines_spec l o (hv l (List.mem_cons_self ..)) hw
+    obtain ⟨out, hout, hlen⟩ :=
+      foldfilter_length child o hw ls (fun x hx => hv x (List.mem_cons_of_mem _ hx))
+    refine ⟨rejoin child ps :: out, ?_, by simp [hlen]⟩
+    rw [foldfilter, hps, hout]
+
 end PV.Lemmas.Fold
